@@ -1,4 +1,6 @@
 import QcelVerif.Model.Serialize
+import QcelVerif.Model.JsonText
+import QcelVerif.Model.JsonFloat
 import QcelVerif.Lib.Proto
 /-!
 Line-protocol driver for the C10 model.
@@ -15,6 +17,11 @@ ops:
   reader <enc>       reader family run for an encoding
   reads <reader> <enc>
   reshape <n> <m> <len>   ok | none   (v.reshape(n, m) on a flat list of length len)
+  jt json|json-ext <tree>   T <the JSON text serialize(v, enc) writes> | err <kind>   (Model/JsonText.lean, run with the
+                            concrete float codec of Model/JsonFloat.lean; `floatOk` is EVALUATED for every float of the
+                            tree — `err float-hyp` if the hypothesis of the text theorems fails for one of them)
+  jtd hook|plain <hex of the UTF-8 text>   the model's JSON parser on a text (+ object hook for `hook`) -> tree | err <kind>
+  mpf <tree>          hex of the plain-msgpack payload bytes (ndarray leaves as flat element lists) | err <kind>
 -/
 open QcelVerif QcelVerif.Ser QcelVerif.Proto
 
@@ -122,8 +129,55 @@ def splitSpaces (s : String) : List String :=
   let (acc, cur) := s.toList.foldl step ([], [])
   (if cur.isEmpty then acc else String.ofList cur.reverse :: acc).reverse
 
+def showJErr : JErr → String
+  | .fuel => "err Fuel" | .eof => "err Eof" | .badChar => "err BadChar" | .badLit => "err BadLit"
+  | .badNum => "err BadNum" | .badEsc => "err BadEsc" | .ctrlInStr => "err CtrlInStr"
+  | .loneSurrogate => "err LoneSurrogate" | .extra => "err Extra" | .expectColon => "err ExpectColon"
+  | .expectKey => "err ExpectKey" | .expectSep => "err ExpectSep"
+
+def codec : FloatCodec := F64.concreteCodec
+
+/-- `serialize(v, enc)` for the two text encodings, with the per-float hypothesis of the text theorems checked -/
+def jsonTextOf (enc : String) (v : Val) : String :=
+  let w? : Option Val := if enc == "json-ext" then some (jxEnc v) else flatEnc v
+  match w? with
+  | none => "err unsupported-dtype"
+  | some w =>
+    match toJ w with
+    | none => "err not-json"
+    | some j => if twf codec j then "T " ++ String.ofList (printV codec j) else "err float-hyp"
+
 def stepC10 (line : String) : String :=
   match splitSpaces line with
+  | "jt" :: enc :: toks =>
+    if enc == "json" || enc == "json-ext" then
+      match parseTree? toks with
+      | some v => jsonTextOf enc v
+      | none => "bad-op"
+    else "bad-op"
+  | ["jtd", mode, hx] =>
+    match unhexStr? hx with
+    | none => "bad-op"
+    | some bs =>
+      match utf8Dec bs with
+      | none => "err not-utf8"
+      | some cs =>
+        match jsonParse codec cs with
+        | .error e => showJErr e
+        | .ok j =>
+          if mode == "plain" then showTree (ofJ j)
+          else if mode == "hook" then
+            match jxDec (ofJ j) with
+            | .ok v => showTree v
+            | .error e => showHookErr e
+          else "bad-op"
+  | "mpf" :: toks =>
+    match parseTree? toks with
+    | some v =>
+      match flatEnc v with
+      | some w => hexStr (mpEnc w)
+      | none => "err unsupported-dtype"
+    | none => "bad-op"
   | "mp" :: toks =>
     match parseTree? toks with
     | some v => hexStr (mpEnc v)
